@@ -165,6 +165,12 @@ def gen_uc_case(rng, with_profiles, dst_daily=False):
             a.pop(kf, None)
         if fuel and rng.random() < 0.7:
             a['consumption_if_on'] = gen.r2(gen.pick(rng, [0.1, 0.5]) * f)
+    HALF = {'h': '30min', '2h': 'h', '30min': '15min'}
+    if a.get('start_ramp_lower_bounds') and not dst_daily and g['freq'] in HALF and a.get('ramp_freq') == g['freq'] and rng.random() < 0.3:
+        # the profiles given in a FINER frequency than the grid (every value twice at half the step): EAO converts them to the same per-step profile
+        for kf in [k for k in a if k.startswith(('start_ramp_', 'shutdown_ramp_'))]:
+            a[kf] = [v for v in a[kf] for _ in range(2)]
+        a['ramp_freq'] = HALF[g['freq']]
     if rng.random() < 0.12:
         # a minimum runtime / downtime that reaches beyond the horizon
         st_ = float(pd.Timedelta(to_offset(g['freq'])) / pd.Timedelta(1, g['unit']))
@@ -202,6 +208,19 @@ def run_m6bc(rng, tier, case, reference):
         case.feature('daily_steps_over_dst_switch')
     a = [x for x in spec['assets'] if x['name'] == 'P'][0]
     g = spec['grid']
+    a_given = a
+    rf_ = a.get('ramp_freq')
+    if a.get('start_ramp_lower_bounds') and rf_ and rf_ != g['freq']:
+        # profiles in a finer frequency whose values repeat q-fold are the per-step profile given by every q-th value (the monitors below read that one)
+        ratio = float(pd.Timedelta(to_offset(g['freq'])) / pd.Timedelta(to_offset(rf_)))
+        q = int(round(ratio))
+        keys_ = [k for k in a if k.startswith(('start_ramp_', 'shutdown_ramp_'))]
+        if q >= 2 and abs(ratio - q) < 1e-12 and all(len(a[k]) % q == 0 and all(a[k][i] == a[k][i - i % q] for i in range(len(a[k]))) for k in keys_):
+            a = dict(a)
+            for k in keys_:
+                a[k] = a[k][::q]
+            a['ramp_freq'] = g['freq']
+            case.feature('profile_in_finer_frequency')
     ck = Clock(g)
     T = ck.T
     step = float(ck.dt[0])
@@ -314,6 +333,18 @@ def run_m6bc(rng, tier, case, reference):
                 case.check('uc.first_step_ramp', abs(v[0] - ld) <= rp + tol, nonvacuous=True, **who, v0=float(v[0]), last_dispatch=ld, ramp=rp, direction='up' if v[0] > ld else 'down')
             else:
                 case.check('uc.first_step_ramp', v[0] <= ld + rp + tol, nonvacuous=v[0] > tol, **who, v0=float(v[0]), last_dispatch=ld, ramp=rp, direction='up')
+        if a.get('ramp') is not None and (k_s or k_d) and prof_known and has_start:
+            # with profiles: every increase OUTSIDE the steps of a start profile respects the ramp (the first step after the profile included)
+            rp = a['ramp'] * step
+            st_i2 = np.round(np.nan_to_num(start)).astype(int)
+            in_start_prof = np.zeros(T, bool)
+            for t in range(T):
+                for j in range(max(k_s, 1)):
+                    if t - j >= 0 and st_i2[t - j] == 1:
+                        in_start_prof[t] = True
+            up = np.array([v[t] - v[t - 1] if (t >= 1 and on_i[t] == 1 and not in_start_prof[t]) else 0. for t in range(T)])
+            case.check('uc.ramp_up_outside_start_profile', bool(np.all(up <= rp + tol)), nonvacuous=bool(up.max() > 1e-6), **who, worst_increase=float(up.max()), ramp=rp, v=v[:10].tolist(),
+                       on=on_i.tolist(), start=st_i2.tolist())
         # pattern admitted by the run-length model
         to_steps = lambda d: int(np.ceil(d / step - 1e-9))
         MR = to_steps(a.get('min_runtime', 0) or 0) + k_s + k_d; MD = to_steps(a.get('min_downtime', 0) or 0)
